@@ -150,11 +150,13 @@ def run_pair(prop, case):
     harness.FIXED_NAME = f"reuse-{os.getpid()}-{harness.case_hash(case)[:10]}"
     try:
         for index, sub in enumerate(case["__pair__"]):
+            harness.PAIR_INDEX = index
             for d in call_run_case(prop, sub, beat=False):
                 d.setdefault("context", {})["pair_index"] = index
                 out.append(d)
     finally:
         harness.FIXED_NAME = old
+        harness.PAIR_INDEX = None
     return out
 
 
